@@ -65,6 +65,9 @@ func (c Case) String() string {
 		ch = "add tag [" + c.NewTag + "] to Marker"
 	case "alterfield":
 		ch = "the field becomes " + c.NewSpec
+		if c.NewTag != "" {
+			ch += " and gains tag [" + c.NewTag + "]"
+		}
 	}
 	fl := ""
 	if c.Flags != "" {
@@ -190,7 +193,8 @@ func (c Case) models() (v1, v2 *tg.Model, err error) {
 		if ns == nil || c.Spec == "" {
 			return nil, nil, fmt.Errorf("unknown variant %q", c.NewSpec)
 		}
-		v2 = tg.Build(key, []*tg.Spec{ns}, extra, c.MarkerTag)
+		// (NewTag, if any, is added to the same column at the same time)
+		v2 = tg.Build(key, []*tg.Spec{ns}, []string{joinTags(c.Extra, c.NewTag)}, c.MarkerTag)
 	default:
 		return nil, nil, fmt.Errorf("unknown change %q", c.Change)
 	}
@@ -910,7 +914,7 @@ func (ck *checker) check(w *worker, c Case) {
 	checkFK(e, v1, c.Flags, func(k, d string) { fail("declared-v1", k, d) })
 
 	// 2. insert rows of v1
-	uniq0 := len(v1.Specs) == 1 && (hasUnique(c.Extra) || (c.Change == "tagfield" && hasUnique(c.NewTag)))
+	uniq0 := len(v1.Specs) == 1 && (hasUnique(c.Extra) || ((c.Change == "tagfield" || c.Change == "alterfield") && hasUnique(c.NewTag)))
 	var vals0, rest0 []int
 	if len(v1.Specs) == 1 {
 		sp := v1.Specs[0]
@@ -1031,6 +1035,9 @@ func (ck *checker) check(w *worker, c Case) {
 				col = cs[0]
 			}
 		case "alterfield":
+			if cs := v2.Specs[0].Cols(0); len(cs) == 1 {
+				col = cs[0]
+			}
 			// the columns named by the variant carry a default now, the field's
 			// other columns still carry none
 			want := map[string]bool{}
@@ -1335,6 +1342,13 @@ func tagChanges(sp *tg.Spec, extra string, full bool) []string {
 	var out []string
 	if textual(sp) && !strings.Contains(extra, "size:") {
 		out = append(out, "size:32") // SQLite text has no length: nothing to alter, nothing may change
+		// two tags at once on the existing column
+		if !isIndexTag(extra) && !hasUnique(extra) {
+			out = append(out, "size:32;index")
+			if len(distinctVals(sp, 0)) >= 2 {
+				out = append(out, "size:32;unique")
+			}
+		}
 	}
 	idx, uniq := idxBasic, uniqBasic
 	if full {
@@ -1436,6 +1450,22 @@ func enumerate(thorough bool) []Case {
 					c := base
 					c.Change, c.NewSpec = "alterfield", alt.Name
 					add(c)
+					// pairs of simultaneous changes on the existing column: the
+					// altering change (default) together with a constraint/index
+					if multiCol(sp) {
+						continue
+					}
+					for _, t := range []string{"unique", "uniqueIndex", "index", checkField} {
+						if (isIndexTag(extra) && isIndexTag(t)) || strings.Contains(extra, t) || (t == "unique" && hasUnique(extra)) {
+							continue
+						}
+						if hasUnique(t) && len(distinctVals(alt, 0)) < 3 {
+							continue
+						}
+						c2 := c
+						c2.NewTag = t
+						add(c2)
+					}
 				}
 				if product {
 					for _, ns := range tg.Specs {
